@@ -638,3 +638,12 @@ Proof.
   intros H. unfold maybe_request. destruct (_ && _); [unfold set_legit; cbn [a_st]; exact H|].
   pose proof (mr_loop_depth k a). lia.
 Qed.
+
+(* statement of Properties/C16.v: c16_invariant *)
+Lemma invariant16_all g fast ext my h :
+  let s := run (init_state g fast ext my) h in
+  (s_am_unchoking s = false -> s_requested s = []) /\
+  s_counter s = (if s_am_unchoking s then 1 else 0)%Z /\
+  (length (s_requested s) <= 250)%nat /\
+  Forall (fun r => u_length r <= max_request_length) (s_requested s).
+Proof. exact (run_inv16 h _ (init_inv16 g fast ext my)). Qed.
